@@ -1,7 +1,7 @@
 ------------------------------- MODULE MC_C07 -------------------------------
 (* D: the security evaluation of ValidateSecurityRequirements as a state machine (one     *)
 (* action per callback invocation), explored for every requirement list of <= 3            *)
-(* requirements x <= 2 schemes over {A, B, C} and every outcome assignment; TLC checks     *)
+(* requirements x <= 3 schemes over {A, B, C} and every outcome assignment; TLC checks     *)
 (* that the final verdict equals the contract SecOK and that the calls made are exactly    *)
 (* ExpectedCalls (a prefix-closed function of the outcomes).                               *)
 (* "U" is a scheme the document does not declare: the code looks a scheme up before asking  *)
@@ -12,7 +12,7 @@ EXTENDS RequestCheck
 CONSTANT UndeclaredAborts
 
 Schemes == {"A", "B", "C"}
-SortedSeqs == {<<>>, <<"A">>, <<"B">>, <<"C">>, <<"A", "B">>, <<"A", "C">>, <<"B", "C">>, <<"U">>, <<"A", "U">>, <<"B", "U">>}
+SortedSeqs == {<<>>, <<"A">>, <<"B">>, <<"C">>, <<"A", "B">>, <<"A", "C">>, <<"B", "C">>, <<"A", "B", "C">>, <<"U">>, <<"A", "U">>, <<"B", "U">>}
 Lists == UNION {[1..n -> SortedSeqs] : n \in 0..3}
 
 VARIABLES es, accepts, ri, si, calls, verdict
